@@ -29,6 +29,32 @@ def r1(cx):
              "with a timestamp window the history cursor skips versions above the window BEFORE it records hard-delete / replace barriers (%d input combinations, e.g. %s): "
              "`set k@10; hard-delete k@30; history(ts 5..20)` lists k@10 although it was erased -- and no longer lists it after the next compaction"
              % (ht.ABOVE["bad"], ht.ABOVE["examples"][:1]), examples=ht.ABOVE["examples"])
+    # A flush writes a memtable's versions into the version index BEFORE it retires the memtable (C10.R6 requires that order
+    # for crash safety), and a history scan merges memtables with the index: for the duration of every flush two sources
+    # offer the same versions.  `every retained version exactly once` then needs the cursor itself to drop a version that
+    # equals the one it examined last.
+    cx.check(ht.ABOVE.get("dup_tested", False), "the forward step tests whether the current version repeats the previous one (two sources can offer it)", "history-duplicate-versions|forward", b.where(),
+             "HistoryIterator::skip_to_valid_forward never compares the current version with the previous one: while a flush has written a memtable's versions to the version index "
+             "but has not yet removed the memtable from the immutable queue, a history scan lists every one of those versions twice")
+    cb0 = f.body("HistoryIterator::collect_user_key_backward")
+    dedupe_b = False
+    for c in cb0.calls:
+        if c.bb in cb0.live and c.primary.split("::")[-1] in ("eq", "ne", "equal") and len(c.args) >= 2:
+            oa, ob = origin_of_operand(cb0, c.args[0], through_calls="all"), origin_of_operand(cb0, c.args[1], through_calls="all")
+            fa, fb = oa.field_names() | {x.primary.split("::")[-1] for x in oa.calls}, ob.field_names() | {x.primary.split("::")[-1] for x in ob.calls}
+            if ("encoded_key" in fa and "encoded" in fb) or ("encoded_key" in fb and "encoded" in fa):
+                dedupe_b = True
+    for cb_ in f.closures_of(cb0):
+        for c in cb_.calls:
+            if c.bb in cb_.live and c.primary.split("::")[-1] in ("eq", "ne") and len(c.args) >= 2:
+                names_ = set()
+                for a in c.args[:2]:
+                    o = origin_of_operand(cb_, a, through_calls="all")
+                    names_ |= o.field_names() | {x.primary.split("::")[-1] for x in o.calls} | o.upvar_names
+                if "encoded_key" in names_ and ("encoded" in names_ or "key_ref" in names_):
+                    dedupe_b = True
+    cx.check(dedupe_b, "the backward collector drops a version equal to the one collected last", "history-duplicate-versions|backward", cb0.where(),
+             "HistoryIterator::collect_user_key_backward collects every entry the merge offers: during a flush the same version arrives from the memtable and from the version index")
     # backward: barrier search newest-first, stops at the first barrier; valid_start = idx+1 for hard delete, idx for replace
     cb = f.body("HistoryIterator::collect_user_key_backward")
     rev = [c for c in cb.calls if c.bb in cb.live and c.primary.endswith("::rev")]
